@@ -135,6 +135,11 @@ class Flow(Driver):
             if self.eval_int_commits:
                 for b in tips:
                     evs.append(['eval_commit', b])
+            if self.spec.get('delete_w'):
+                # the author deletes an integration branch by hand
+                for b in tips[1:]:
+                    if b in hs:
+                        evs.append(['rm_ref', b])
             for kind in self.spec.get('manual', []):
                 for b in tips[1:]:
                     if b in hs and not w.git(
@@ -277,8 +282,16 @@ class Reset(Driver):
         n_init = len(self.init_events())
         pos = w.tick - n_init
         pr1 = [c for c in state['comments'] if c[0] == 1]
-        if any(c[1] != ROBOT and 'reset' in c[2] for c in pr1):
-            return [['eval_pr', 1]]
+        nreset = sum(1 for c in pr1 if c[1] != ROBOT and 'reset' in c[2])
+        if nreset:
+            evs = [['eval_pr', 1]]
+            if self.spec.get('double_reset') and nreset == 1 and \
+                    pr1[-1][1] == ROBOT and 'Reset complete' in pr1[-1][2]:
+                # the same command again, nothing said in between
+                for cmd in ('reset', 'force_reset'):
+                    evs.append(['seq', ['comment', 1, AUTHOR, '@robot ' + cmd],
+                                ['eval_pr', 1]])
+            return evs
         evs = []
         hs = heads_of(state)
         if pos < self.seq_len and self.SRC1 in hs:
